@@ -6,10 +6,15 @@ From Coq Require Import ZArith ZifyN ZifyNat ZifyBool.
 
 (* rest : bytes not yet delivered;  cuts : for each future Read, the most the transport is
    willing to return (0 is treated as 1: a Read never returns (0,nil));  endk : what the
-   stream ends with once empty (0 = io.EOF, other = some transport error). *)
-Record rd := { rest : list byte; cuts : list nat; endk : N }.
+   stream ends with once empty (0 = io.EOF, other = some transport error);
+   carry : what happens to the part of a cut that a Read with a smaller buffer did not take:
+   false = forgotten (stream transports: the next Read is again limited only by the next cut),
+   true  = it stays at the head of `cuts` (message transports: a WebSocket adapter buffers the unread tail
+   of a message and serves it before touching the next message; Model/WsConn.v). *)
+Record rd := { rest : list byte; cuts : list nat; endk : N; carry : bool }.
 
-Definition mkrd (s : list byte) (c : list nat) : rd := {| rest := s; cuts := c; endk := 0 |}.
+Definition mkrd (s : list byte) (c : list nat) : rd := {| rest := s; cuts := c; endk := 0; carry := false |}.
+Definition mkrde (s : list byte) (c : list nat) (e : N) : rd := {| rest := s; cuts := c; endk := e; carry := false |}.
 
 (* one Read with a buffer of capacity cap (cap > 0) *)
 Definition read1 (cap : N) (r : rd) : option (list byte * rd) :=
@@ -18,7 +23,11 @@ Definition read1 (cap : N) (r : rd) : option (list byte * rd) :=
   | _ =>
     let c := match cuts r with [] => length (rest r) | x :: _ => Nat.max 1 x end in
     let k := N.to_nat (N.min cap (N.of_nat (Nat.min c (length (rest r))))) in
-    Some (firstn k (rest r), {| rest := skipn k (rest r); cuts := tl (cuts r); endk := endk r |})
+    let cuts' := match cuts r with
+                 | [] => []
+                 | x :: t => if carry r && Nat.ltb k (Nat.max 1 x) then (Nat.max 1 x - k)%nat :: t else t
+                 end in
+    Some (firstn k (rest r), {| rest := skipn k (rest r); cuts := cuts'; endk := endk r; carry := carry r |})
   end.
 
 Inductive rf_result :=
@@ -121,12 +130,12 @@ Qed.
 Definition rf_obs (x : rf_result) : option (option (list byte)) :=
   match x with RFOk g _ => Some (Some g) | RFEnd _ _ => Some None | RFFuel => None end.
 
-Corollary read_full_chunk_independent n s c1 c2 e :
-  rf_obs (read_full (length s) n {| rest := s; cuts := c1; endk := e |}) =
-  rf_obs (read_full (length s) n {| rest := s; cuts := c2; endk := e |}).
+Corollary read_full_chunk_independent n s c1 c2 e k1 k2 :
+  rf_obs (read_full (length s) n {| rest := s; cuts := c1; endk := e; carry := k1 |}) =
+  rf_obs (read_full (length s) n {| rest := s; cuts := c2; endk := e; carry := k2 |}).
 Proof.
-  destruct (read_full_spec (length s) n {| rest := s; cuts := c1; endk := e |} (le_n _)) as [A1 B1].
-  destruct (read_full_spec (length s) n {| rest := s; cuts := c2; endk := e |} (le_n _)) as [A2 B2].
+  destruct (read_full_spec (length s) n {| rest := s; cuts := c1; endk := e; carry := k1 |} (le_n _)) as [A1 B1].
+  destruct (read_full_spec (length s) n {| rest := s; cuts := c2; endk := e; carry := k2 |} (le_n _)) as [A2 B2].
   cbn [rest] in *.
   destruct (N.le_gt_cases n (lenN s)) as [H|H].
   - destruct (A1 H) as (r1 & E1 & _). destruct (A2 H) as (r2 & E2 & _). now rewrite E1, E2.
